@@ -34,6 +34,10 @@ CHECKS = {
          "Fault enumeration + exploration: 2k (quick) / 50k (thorough) generated schemas x 8 valid documents each (must be accepted), each with two single faults (must be rejected, counted per fault class and reference reason code), multi-fault and type-blind documents judged by the reference validator alone; ~49k documents quick, ~1.2M thorough.",
          "Trusts the reference validator (spec section 5 algorithms: CollectFields, FieldsInSetCanMerge/SameResponseShape, IsVariableUsageAllowed, literal coercion tables, plus the library's root-type and introspection-depth rules); abstains where the specification is silent. Twelve defects repaired in validator rules and walker (see known_findings.json).",
          "DESIGN.md §4 C08"),
+ "C09": ("link monitor: an independent top-down typing pass over every validated tree recomputes each annotation from names and the schema's maps and compares by pointer identity",
+         "Exploration: 16k (quick) / 400k (thorough) documents valid by construction (deep literals, list-coerced values, fragments on unions/interfaces, __typename, introspection fields, variables through fragments, directives everywhere) are validated; ~190k fields, ~170k values, ~28k variable uses, ~32k directives per quick run are checked for Definition / ObjectDefinition / ExpectedType / VariableDefinition / Location links, in operations and in every fragment definition.",
+         "Complete by construction over the documents generated (visits every node); custom-scalar literal contents are excepted as the property states; __typename's synthetic definition is checked by name and type.",
+         "DESIGN.md §4 C09"),
  "C12": ("round-trip monitor: model(parse(x)) = model(parse(format_c(parse(x)))) and text fixpoint, over generated trees with hostile strings x 20 formatter configurations",
          "Exploration: 5k (quick) / 100k (thorough) documents rendered from random syntax trees with hostile string values, directives in every position (incl. variable definitions), fragment variables and comments are parsed, formatted under every combination of comments x compacted x 5 indents (builtin / no-description flags rotated), re-parsed and compared through an independent AST->model adapter; the second format must reproduce the first byte for byte.",
          "Trusts the model adapter and diff; comments and positions are not compared; relative order of operations vs fragments not compared (formatter emits operations first by design). Two defects found by this check were repaired (fix: commits fc85355, 36779a6).",
